@@ -10,6 +10,7 @@ from fractions import Fraction
 from common import zlit, qlit, lst, natlit, coq_bad_indices, parallel_coq_bad, CoqError
 import mlmcdrive as D
 import c05_vec as V
+import c05_fault as F
 
 PROP = "C05"
 PROPERTY_FILE = "Properties/C05.v"
@@ -21,9 +22,22 @@ RULE = ("histories of the adaptive loop generated from the seed: initial level 0
         "notional dyadic, rates given or (15%) regressed by the engine; every path manager carries a deterministic path tagged "
         "with (pricing, level); plus the fixed-level variant over all (L0, Lmax, N) in a small box; plus sequences of 2-3 pricings "
         "on ONE Engine instance (a third of them going to higher levels than the first pricing); plus runs with 1-2 control "
-        "variates, one held short (implementation oracle). non-trivial = at least two passes or one added level (adaptive), a "
+        "variates, one held short (implementation oracle); plus vector payoffs (d = 2-3) WITH 1-2 controls; plus FAULT INJECTION: the first 70 "
+        "(thorough 400) histories are re-run with a coupling process whose simulate call raises KeyboardInterrupt (2/3) or an ordinary exception "
+        "(1/3) at up to 3 points (pass, level, iteration): one uniform, one in a later pass at a level below a level that still has paths to "
+        "simulate, one in the first pass; then either the exception propagates (nothing reported; exposed arrays replayed by the Coq abort model; "
+        "a further pricing on the same engine must be clean) or what is returned must satisfy C05. non-trivial = at least two passes or one added level (adaptive), a "
         "further pricing on a used engine, at least one level above 0 with N >= 1 (fixed)")
-MODELLED = ["wave 5, Model/MlmcVec.v (generic engine over the stored row type, linked to Model/Mlmc.v by the simulation theorem "
+MODELLED = ["wave 7, Model/MlmcVec.v gloop_f: an exception raised by simulation_path() at (pass, level, iteration) -- Engine.price has no handler, the "
+            "exception propagates (outcome ARaised, nothing returned) and the exposed state is the half-finished pass; tied by ~180 fault runs of the "
+            "REAL engine (scripted coupling process raising KeyboardInterrupt / RuntimeError subclass): the exception must reach the caller and the arrays "
+            "engine.statistics still holds + the number of paths each level's process simulated equal the model's aborted state row by row (all payoff "
+            "components; first pass: only the written rows, np.empty behind); if Engine.price RETURNS instead, the correspondence breaks and the returned "
+            "results go through the full C05 oracle (rollback of the interrupted level's incomplete pass is the only latitude)",
+            "wave 7: vector payoffs WITH controls (product.py compute_coefficients_mlmc, per-component b_star and prices) driven by the replay: 12 (thorough "
+            "100) runs, d = 2-3, controls with vector payoffs, prices as scalars / per-component arrays; with_cv rows of every component vs Model/MlmcVec.v "
+            "(1e-6) and vs the exact Fraction regression",
+            "wave 5, Model/MlmcVec.v (generic engine over the stored row type, linked to Model/Mlmc.v by the simulation theorem "
             "C05_vec_component_is_scalar_run): MLMCPath.process/process_l0/discount for ALL payoff components, ControlVariates.process(_mlmc) "
             "rows, MCStatistics.add/extend of the payoff, control and with_cv arrays, compute_coefficients_mlmc after every pass (with_cv rows = "
             "Y - b (X - price) per component and side; b = ANY rule in the theorems, McStats.b_star1/b_star2 of C07 in the replay), price() and "
@@ -44,8 +58,9 @@ MODELLED = ["wave 5, Model/MlmcVec.v (generic engine over the stored row type, l
             "b_star1/b_star2); 3+ controls, singular or ill-conditioned Sigma_X (|det| < 1e-3 of the diagonal product) are not replayed (counted; the "
             "check breaks when fewer than half of the runs are replayed); vector payoffs WITH controls (per-component prices, product.py:296) are in "
             "the model and the theorems but are not driven by the correspondence (controls of the harness are scalar)",
-            "the pool's chunking of range(extra_mc_paths) and the completion order inside map_async are below the model: map_async hands the "
-            "callback ONE list ordered by iteration index, so they only show in sigma",
+            "the pool's chunking of range(extra_mc_paths) and the completion order inside map_async: map_async hands the callback ONE list ordered "
+            "by iteration index (so they only show in sigma); the callback itself is Model/MlmcVec.v merge, proved (wave 7) to equal the single-process "
+            "loop for ANY order / chunking of the (iteration, row) pairs covering each index once",
             "where N_l = 0 numpy reports nan; the model's totalised value 0 is never compared there, the oracle asserts nan",
             "mlmc kurtosis: the code's raw-moment formula cancels catastrophically for |dp| >> std(dp) (3.32 reported vs 1.63 exact on "
             "the same rows at |dp| ~ 7500); compared with a tolerance scaled by E[dp^4]"]
@@ -74,13 +89,20 @@ THEOREM_NOTES = {
     "C05_vec_component_is_scalar_run": "simulation: projecting the vector engine on component j gives literally Mlmc.price_run on payoff pay_j, so the six "
                                        "component-0 theorems hold for every j < d (C05_vec_component_price is the instance for the estimator)",
     "C05_mp_rows_permutation": "for ALL assignments sigma; rows in iteration order are the rows of draws sigma l 0..N-1 (no hypothesis); the permutation "
-                               "conclusion has the hypothesis that sigma l permutes 0..N_l-1 (non-vacuous: Example C05_mp_nonvacuous). PARTIAL with respect to "
-                               "objective (b): a theorem about the callback writing an arbitrarily chunked / ordered list of (it, path) pairs with set_nth "
-                               "(Model/MlmcVec.v merge) is NOT proved; the code's map_async delivers one ordered list",
+                               "conclusion has the hypothesis that sigma l permutes 0..N_l-1 (non-vacuous: Example C05_mp_nonvacuous); the callback writing an "
+                               "arbitrarily chunked / ordered list of (it, path) pairs is C05_callback_merge / _chunks / _is_single_process_loop",
+    "C05_abort_exposed_state": "generic engine, ALL fault points (fp, fl, fi) and oracles: AReturn o -> o is the uninterrupted run (fault point never reached: "
+                               "pass fp does not exist, or dNl[fl] <= fi there); ARaised e -> levels < fl glev_done, level fl holds N_l + fi simulated rows then "
+                               "dNl - fi placeholders with N_l not incremented, levels > fl glev_head (placeholders), and on every level the first N_l rows are "
+                               "the N_l samples. That NOTHING is returned on a raise is how the code is modelled (no handler in Engine.price); it is tied by the "
+                               "fault runs (a returning engine breaks the correspondence). Only the single-process Engine.price is fault-driven; the fixed-level "
+                               "variant and the multi-process branch are not",
+    "C05_callback_merge": "hypothesis: the iteration indices of res are a permutation of 0..k-1 (what map_async guarantees); lookup takes the first pair with the "
+                          "index; merge_nth (Proofs/C05_Fault.v) gives the pointwise statement under NoDup only",
     "C05_results_permutation_invariant": "price contribution, ml, vl, mean, var, kurtosis, cl of a level are invariant under any permutation of its rows",
     "mc_stddev": "MLMCStatistics.mc_stddev is sum_l sigma_l/sqrt(N_l) in the code (not sqrt(sum sigma_l^2/N_l)); outside the property text, the oracle follows the code",
 }
-LEVEL_TEXT = ("Proof: 13 Coq theorems (closed under the global context). Six about an executable state-machine model of the multilevel "
+LEVEL_TEXT = ("Proof: 17 Coq theorems (closed under the global context). Six about an executable state-machine model of the multilevel "
               "engine, for all sample/cost/allocation/convergence oracles, all initial levels, sample sizes, maximum levels and "
               "fuels: at every return each level holds exactly its N_l simulated samples in order (no placeholder, none dropped, "
               "duplicated or overwritten; N_l = number of simulated paths), price() is the sum of the per-level means of fine-coarse "
@@ -94,7 +116,11 @@ LEVEL_TEXT = ("Proof: 13 Coq theorems (closed under the global context). Six abo
               "component; the fixed-level variant; for the multi-process branch the rows are those of the draws the pool assigned (any "
               "assignment) and a permutation of the simulated samples when each draw is assigned once, and every reported statistic is "
               "permutation-invariant. Tied by ~70 vector, 80 fixed, ~35 control-variate replays and 3 real 2-worker runs. Partial: price() "
-              "reads component 0 only (F-C05-5); controls with vector payoffs and 3+ controls not driven; chunked-callback merge not proved.")
+              "reads component 0 only (F-C05-5); 3+ controls not driven. Wave 7: an exception raised by a simulation at ANY (pass, level, iteration) "
+              "either is never reached (the run is the uninterrupted one) or leaves Engine.price with nothing returned, the exposed state being exactly the "
+              "half-finished pass (first N_l rows = the N_l samples on every level, placeholders behind on the interrupted and later levels) -- tied by ~180 "
+              "fault-injection runs of the real engine (KeyboardInterrupt and ordinary exceptions; a returning engine must satisfy C05); the pool callback "
+              "(merge) equals the single-process loop for any order / chunking of the (iteration, row) pairs; vector payoffs with controls are replayed.")
 LEVEL_NOTE = ("Trusted: Coq kernel + vm_compute; the hand-written model Model/Mlmc.v (tied by correspondence, not by translation); "
               "numpy pad/empty/mean and scipy.stats.moment semantics; nb_of_processes = 1.")
 TECHNIQUE = "Coq proof (loop invariant by induction on fuel, list lemmas, Q field identities) + vm_compute correspondence with a scripted coupling process"
@@ -114,6 +140,8 @@ def correspond(res):
     n_hist = 260 if res.tier == "quick" else 1800
     cases = []
     vcases = []
+    fault_specs = []
+    n_fault = 70 if res.tier == "quick" else 400
     for i in range(n_hist):
         mode = MODES[i % len(MODES)]
         spec = D.gen_spec(rng, mode)
@@ -140,6 +168,8 @@ def correspond(res):
         _violations(res, spec, obs, D.check_c05(spec, obs))
         tag = 1 if obs["fallthrough"] else 0
         cases.append(f"(run_tab 0 {D.coq_inputs(spec, obs)}, {zlit(tag)}, {D.coq_expected_rows(obs)}, {D.coq_expected_results(obs)})")
+        if i < n_fault:
+            fault_specs.append((spec, obs))
         if ((spec["dim"] > 1 and i % 3 != 2) or i % 8 == 0) and len(vcases) < 300:        # Model/MlmcVec.v: EVERY payoff component of every stored row
             vcases.append(V.vector_case(spec, obs))
             res.bump("vector_model_replays_by_payoff_dim", spec["dim"])
@@ -147,34 +177,117 @@ def correspond(res):
     chk = ("fun c => match c with (o, tag, er, ex) => Z.eqb (out_tag o) tag && corr_rows (out_levels o) er && "
            "corr_results tol (out_levels o) ex end")
     ty = "outcome state * Z * (list Z * list Z * list (list row)) * (Q * Q * list (list Q))"
-    if not cases:
-        res.broke("correspondence adaptive", "the group has no case: nothing would be compared")
-    bad, nshards = parallel_coq_bad(PROP, "adaptive", HEADER, ty, chk, cases, shard=24 if res.tier == "quick" else 60, timeout=900, jobs=12)
-    res.case_lemmas += nshards
-    if bad:
-        res.broke("correspondence adaptive", f"model and implementation differ on {len(bad)} histories, first: case {bad[0]}: {cases[bad[0]][:1500]}")
-    else:
-        res.case_ok += nshards
+    _submit(res, "adaptive", HEADER, ty, chk, cases, 24 if res.tier == "quick" else 60,
+            "model and implementation differ on {n} histories")
 
     _coq_group(res, "vector", V.VEC_TY, V.VEC_CHK, vcases, 8 if res.tier == "quick" else 40,
                "vector-payoff model (Model/MlmcVec.v) and implementation differ on {n} histories (all payoff components compared)")
+    _fault_injection(res, rng, fault_specs)
     _fixed_variant(res, rng)
     _engine_reuse(res, rng)
     _real_coupling(res)
+    _join(res)                  # no replay thread may be alive while _multiprocess forks the engine's worker pool
     _multiprocess(res, rng)
     _control_variates(res, rng)
+    _control_variates_vector(res, rng)
+    _join(res)
 
 
-def _coq_group(res, name, ty, chk, cases, shard, msg):
+# The Coq replay groups are independent of each other and of the Python driving: each group is handed to a worker thread as soon
+# as its cases exist (the coqc processes of all groups run while the next group's histories are still being driven); the
+# results are collected, in submission order, by _join at the end of correspond.
+_PENDING = []
+
+
+def _submit(res, name, header, ty, chk, cases, shard, msg):
+    from concurrent.futures import ThreadPoolExecutor
     if not cases:
         res.broke(f"correspondence {name}", "the group has no case: nothing would be compared")
         return
-    bad, nshards = parallel_coq_bad(PROP, name, V.HEADER, ty, chk, cases, shard=shard, timeout=900, jobs=12)
-    res.case_lemmas += nshards
-    if bad:
-        res.broke(f"correspondence {name}", msg.format(n=len(bad)) + f", first: case {bad[0]}: {cases[bad[0]][:1500]}")
-    else:
-        res.case_ok += nshards
+    ex = ThreadPoolExecutor(max_workers=1)
+    fut = ex.submit(parallel_coq_bad, PROP, name, header, ty, chk, cases, shard=shard, timeout=900, jobs=8)
+    ex.shutdown(wait=False)
+    _PENDING.append((name, fut, cases, msg))
+
+
+def _join(res):
+    pending, _PENDING[:] = list(_PENDING), []
+    errors = []
+    for name, fut, cases, msg in pending:
+        try:
+            bad, nshards = fut.result()
+        except Exception as ex:               # noqa: every group is collected before the first error is re-raised
+            errors.append(ex)
+            continue
+        res.case_lemmas += nshards
+        if bad:
+            res.broke(f"correspondence {name}", msg.format(n=len(bad)) + f", first: case {bad[0]}: {cases[bad[0]][:1500]}")
+        else:
+            res.case_ok += nshards
+    if errors:
+        raise errors[0]
+
+
+def _coq_group(res, name, ty, chk, cases, shard, msg):
+    _submit(res, name, V.HEADER, ty, chk, cases, shard, msg)
+
+
+def _fault_injection(res, rng, pairs):
+    """every history of `pairs` (spec, observation of the uninterrupted run) is re-run on a fresh REAL engine with a coupling
+    process that raises KeyboardInterrupt / an ordinary exception at a chosen (pass, level, iteration).  If the exception
+    reaches the caller nothing is reported (then the arrays the engine object exposes are compared with the aborted state of
+    Model/MlmcVec.v gloop_f and a further pricing on the same engine must be clean); if the engine returns results they must
+    satisfy the C05 statement like any other run."""
+    fcases = []
+    returned = []
+    n_runs = 0
+    for spec, base in pairs:
+        passes = F.passes_of(base)
+        for p, l, i in F.choose_faults(rng, passes):
+            start = passes[p][l][0]
+            kind = rng.choice(["KeyboardInterrupt", "KeyboardInterrupt", "Injected"])
+            fault = (l, start + i, kind)
+            payload = dict({k: v for k, v in spec.items() if k != "epoch"}, kind="fault", atab=base["atab"], vtab=base["vtab"],
+                           fault={"pass": p, "level": l, "iteration": i, "draw": start + i, "raises": kind})
+            obs = F.run_faulty(dict(spec, epoch=0), base["atab"], base["vtab"], fault)
+            n_runs += 1
+            res.count(("fault", json.dumps(payload, sort_keys=True)), nontrivial=True, kind=f"exception injected ({kind})")
+            res.bump("fault_point", F.classify(passes, (p, l, i)))
+            if not obs["propagated"]:
+                res.bump("fault_outcome", "the engine returned results")
+                if obs["raised"]:
+                    res.broke("correspondence driver", f"fault run raised {obs['raised']}")
+                    continue
+                for what, det in F.check_returned(spec, obs, fault, start):
+                    if det.get("finding") == "F-C05-5":
+                        continue                 # reported once by the uninterrupted run of the same history
+                    res.violation(what, dict(payload, **det, observed={"Nl": obs["Nl"], "paths_simulated": obs["draws"],
+                                                                      "rows_stored": [len(f) for f in obs["fine"]], "price": obs["price"]}))
+                    break                        # one replay per fault run (the first clause that fails)
+                returned.append(payload["fault"])
+                continue
+            res.bump("fault_outcome", "the exception propagated: nothing reported")
+            o2 = obs.get("again")
+            if o2 is not None:
+                if o2["raised"]:
+                    res.broke("correspondence driver", f"pricing after a propagated exception raised {o2['raised']}")
+                else:
+                    sp2 = dict(spec, epoch=1)
+                    for what, det in D.check_c05(sp2, o2):
+                        if det.get("finding") == "F-C05-5":
+                            continue
+                        res.violation("pricing on an engine whose previous pricing was aborted by an exception: " + what,
+                                      dict(payload, **det, second_pricing=True))
+            if len(fcases) < 400:
+                fcases.append(F.fault_case(dict(spec, epoch=0), obs, base, (p, l, i)))
+    res.bump("fault_runs", n_runs)
+    if returned:
+        res.broke("correspondence fault", f"Engine.price RETURNED in {len(returned)} of {n_runs} runs in which a simulation raised: Model/MlmcVec.v gloop_f "
+                  f"(no handler, the exception propagates, nothing is returned) no longer follows the code; first: {returned[0]}")
+    if n_runs < len(pairs):
+        res.broke("fault injection coverage", f"only {n_runs} fault runs for {len(pairs)} histories")
+    _coq_group(res, "fault", F.FAULT_TY, F.FAULT_CHK, fcases, 30 if res.tier == "quick" else 60,
+               "aborted-pass model (Model/MlmcVec.v gloop_f) and the arrays the engine exposes after a propagated exception differ on {n} runs")
 
 
 def _engine_reuse(res, rng):
@@ -212,14 +325,8 @@ def _engine_reuse(res, rng):
            "corr_results tol (out_levels o) ex end) (run_seq pm_offs true 0 [] (map tab_pricing (fst c))) (snd c)")
     ty = ("list (list (list (Q * Q)) * list Q * list (list Z) * list bool * (Q * Q) * (nat * nat * nat * nat)) * "
           "list (Z * (list Z * list Z * list (list row)) * (Q * Q * list (list Q)))")
-    if not cases:
-        res.broke("correspondence reuse", "the group has no case: nothing would be compared")
-    bad, nshards = parallel_coq_bad(PROP, "reuse", HEADER, ty, chk, cases, shard=10 if res.tier == "quick" else 40, timeout=900, jobs=12)
-    res.case_lemmas += nshards
-    if bad:
-        res.broke("correspondence reuse", f"model and implementation differ on {len(bad)} pricing sequences on one engine, first: {cases[bad[0]][:1500]}")
-    else:
-        res.case_ok += nshards
+    _submit(res, "reuse", HEADER, ty, chk, cases, 10 if res.tier == "quick" else 40,
+            "model and implementation differ on {n} pricing sequences on one engine")
 
 
 def _real_coupling(res):
@@ -391,14 +498,7 @@ def _fixed_variant(res, rng):
         vcases.append(V.vfixed_case(spec, obs, L0, Lmax, N))
     chk = ("fun c => match c with (Some vs, Some (er, ex)) => corr_rows vs er && corr_results tol vs ex | (None, None) => true | _ => false end")
     ty = "option (list lev) * option ((list Z * list Z * list (list row)) * (Q * Q * list (list Q)))"
-    if not cases:
-        res.broke("correspondence fixed", "the group has no case: nothing would be compared")
-    bad, nshards = parallel_coq_bad(PROP, "fixed", HEADER, ty, chk, cases, shard=30, timeout=900, jobs=12)
-    res.case_lemmas += nshards
-    if bad:
-        res.broke("correspondence fixed", f"model and implementation differ on {len(bad)} fixed-level runs, first: {cases[bad[0]][:1500]}")
-    else:
-        res.case_ok += nshards
+    _submit(res, "fixed", HEADER, ty, chk, cases, 30, "model and implementation differ on {n} fixed-level runs")
     _coq_group(res, "vfixed", V.VFIX_TY, V.VFIX_CHK, vcases, 30,
                "vector-payoff model (Model/MlmcVec.v) and implementation differ on {n} fixed-level runs")
 
@@ -548,6 +648,78 @@ def _control_variates(res, rng):
                   "the multilevel control-variate path is not being exercised")
 
 
+def _control_variates_vector(res, rng):
+    """GENUINE vector payoffs (dimension 2-3) WITH 1-2 control variates (per-component regression, product.py
+    compute_coefficients_mlmc loop over the payoff components; prices given as scalars or per component): raw rows, control rows
+    of every component exact, adjusted rows of EVERY component against the exact Fraction regression (1e-6) and against
+    Model/MlmcVec.v (vrun_tab d nc: with_cv rows of every component, price() and statistics of component 0)."""
+    import numpy as np
+    from mcscript import make_product
+    from rpylib.product.product import ControlVariates
+    n_hist = 12 if res.tier == "quick" else 100
+    funs = [lambda x: x * x / 8.0, lambda x: max(x - 6.0, 0.0)]
+    cvcases = []
+    n_ill = 0
+    for i in range(n_hist):
+        spec = D.gen_spec(rng, "small")
+        d = spec["dim"] = rng.choice([2, 2, 3])
+        spec["N0"] = rng.choice([4, 5, 6, 8])
+        spec["kmax"] = min(spec["kmax"], 4)
+        ncv = rng.choice([1, 1, 2])
+        prices = [rng.choice([1.0, 2.0, 4.5]), rng.choice([0.5, 1.0])][:ncv]
+        cvn = [1.0, -0.5][:ncv]
+        form = "arrays" if i % 2 else "scalars"
+        spec["cv"] = {"ncv": ncv, "prices": prices, "prices_form": form, "vector": True}
+        products = [make_product(notional=nk, dimension=d, fun=(lambda f: (lambda x: np.full(d, f(x))))(f)) for f, nk in zip(funs, cvn)]
+        cv = ControlVariates(products=products, prices=[np.full(d, p) for p in prices] if form == "arrays" else list(prices))
+        obs = D.run_engine(spec, cv=cv)
+        if obs["raised"]:
+            res.broke("correspondence driver", f"Engine.price with a vector payoff and control variates raised {obs['raised']}")
+            continue
+        res.count(("cv-vector", json.dumps(spec, sort_keys=True)), nontrivial=True, kind=f"adaptive/vector-payoff-with-{ncv}-controls")
+        res.bump("cv_vector_payoff_dim", d)
+        _violations(res, spec, obs, [v for v in D.check_c05(spec, obs) if "mlmc_results" not in v[0] and "reports a number instead of nan" not in v[0]
+                                     and v[1].get("finding") != "F-C05-5"])
+        st = obs["st"]
+        df, no = Fraction(spec["df"]), Fraction(spec["notional"])
+        sc = abs(df * no)
+        tol6 = Fraction(1, 10 ** 6)
+        skip = any(obs["Nl"][l] != obs["draws"][l] for l in range(len(obs["Nl"])))
+        for l in range(min(len(obs["Nl"]), obs["n_stat_levels"])):
+            n = obs["draws"][l]
+            if n == 0 or skip:
+                continue
+            adj = np.array(st.mc_statistics[l]._payoff_statistics_with_cv.stats)          # (n, d, 2)
+            raw = [D.raw_value(spec, l, k) for k in range(n)]
+            for j in range(d):
+                for side in (0, 1):
+                    if l == 0 and side == 1:
+                        want = [Fraction(0)] * n
+                    else:
+                        y = [df * no * Fraction(D.payoff_component(r[side], j)) for r in raw]
+                        xs = [[df * Fraction(nk) * Fraction(f(r[side])) for r in raw] for f, nk in zip(funs[:ncv], cvn)]
+                        want, b, ill = cv_adjusted(y, xs, [Fraction(p) for p in prices])
+                        if ill:
+                            skip = True
+                            n_ill += 1
+                            break
+                    if any(abs(Fraction(float(adj[k, j, side])) - want[k]) > tol6 * max(sc, abs(want[k])) for k in range(n)):
+                        res.violation("vector payoff with control variates: the adjusted rows of a payoff component are not Y - b*(X - price) with the "
+                                      "regression coefficient of that component's simulated samples",
+                                      D.replay_payload(spec, obs, level=l, side=side, component=j, stored=[float(v) for v in adj[:, j, side]],
+                                                       expected=[float(v) for v in want]))
+                if skip:
+                    break
+        if not skip:
+            cvcases.append(V.cv_case(spec, obs, ncv, prices))
+            res.bump("cv_vector_model_replays_by_payoff_dim", d)
+    res.bump("cv_vector_runs_skipped (a level is ill-conditioned or N_l wrong)", n_hist - len(cvcases))
+    if len(cvcases) < 0.4 * n_hist:
+        res.broke("control-variate model coverage", f"only {len(cvcases)} of {n_hist} vector-payoff control-variate runs could be replayed by Model/MlmcVec.v")
+    _coq_group(res, "cvvec", V.CV_TY, V.CV_CHK, cvcases, 2 if res.tier == "quick" else 6,
+               "control-variate model (Model/MlmcVec.v) and implementation differ on {n} runs with a VECTOR payoff (all components of the with_cv rows compared)")
+
+
 def matches_known(v, known):
     """F-C05-5 only explains: a genuine vector payoff, price() a single number equal to the component-0 estimator (what the
     faithful model of MLMCStatistics.price predicts), every stored row correct"""
@@ -597,6 +769,25 @@ def replay(path):
                 print("VIOLATED:", what, det)
                 rc = 1
         return rc
+    if data.get("kind") == "fault":
+        f = data["fault"]
+        fault = (f["level"], f["draw"], f["raises"])
+        obs = F.run_faulty(dict(data, epoch=0), data["atab"], data["vtab"], fault)
+        if obs["propagated"]:
+            print(f"the injected {f['raises']} propagated to the caller: nothing is reported")
+            o2 = obs.get("again")
+            v = [] if o2 is None or o2["raised"] else [x for x in D.check_c05(dict(data, epoch=1), o2) if x[1].get("finding") != "F-C05-5"]
+            for what, det in v:
+                print("VIOLATED (next pricing on the same engine):", what, det)
+            return 1 if v else 0
+        print(f"Engine.price RETURNED although the simulation of draw {f['draw']} of level {f['level']} (pass {f['pass']}) raised {f['raises']}")
+        print("N_l reported      :", obs["Nl"])
+        print("paths simulated   :", obs["draws"][:len(obs["Nl"])])
+        print("rows stored       :", [len(x) for x in obs["fine"]])
+        v = [x for x in F.check_returned(data, obs, fault, f["draw"] - f["iteration"]) if x[1].get("finding") != "F-C05-5"]
+        for what, det in v:
+            print("VIOLATED:", what, det)
+        return 1 if v else 0
     if data.get("kind") not in ("adaptive", "fixed"):
         print("replay: re-run ./check C05")
         return 1
